@@ -1,5 +1,5 @@
 (** * The remeshing kernels of the model are, verbatim, the programs that tools/tr_kern.py generates from
-    remeshing/cut.rs, remeshing/swap.rs and cell_insertion/vertices.rs (single insertion) on every run (hand-written file, not generated). *)
+    remeshing/cut.rs, remeshing/swap.rs cell_insertion/vertices.rs (single insertion) and triangulation/fan.rs (convex fan, with its loop) on every run (hand-written file, not generated). *)
 From Coq Require Import List NArith Bool.
 From HC Require Import Stm.Prog Map2.Ops2 Map2.Kern2 Map2.GenKern.
 Open Scope N_scope.
@@ -21,6 +21,11 @@ Proof. cbv beta zeta delta [gen_swap_edge swap_edge restore_vertex restore_ancho
 Lemma gen_insert_vertex_on_edge_ok n ks e nd1 nd2 t :
   gen_insert_vertex_on_edge n ks e nd1 nd2 t = insert_vertex_on_edge n ks e nd1 nd2 t.
 Proof. cbv beta zeta delta [gen_insert_vertex_on_edge insert_vertex_on_edge]. syn_eq; reflexivity. Qed.
+
+Lemma gen_fan_convex_cell_ok n ks f nds : gen_fan_convex_cell n ks f nds = fan_convex_cell n ks f nds.
+Proof.
+  cbv beta zeta delta [gen_fan_convex_cell fan_convex_cell fan_from gen_process_convex_cell_loop fan_loop]. syn_eq; reflexivity.
+Qed.
 
 Theorem kernels_are_the_source :
   (forall n ks e nd1 nd2 nd3, gen_cut_outer_edge n ks e nd1 nd2 nd3 = cut_outer_edge n ks e nd1 nd2 nd3) /\
